@@ -703,3 +703,27 @@ def run_C18(ctx):
 
 
 RUNNERS["C18"] = run_C18
+
+
+# ------------------------------------------------------------------ C20 (Numba)
+def run_C20(ctx):
+    ctx.build_l2()
+    q = ctx.quick()
+    consts = session_consts(OpSet='{"numba"}', LeafSet=MIXED_LEAVES if not q else leafset(2) + ' \\cup {Numpy("float64", <<1, 2>>)}',
+                            MaxDepth="2", MaxLen="2", Classes=ALL_CLASSES)
+    ctx.numba_phase("numba-programs-lists-options", "Session", consts, invariants=["Closed"],
+                    require_actions=["NumbaOp", "WrapListOffset", "WrapRegular", "WrapIndexedOption", "WrapBitMasked"],
+                    max_forms=(40 if q else 400), max_cases_per_form=(300 if q else 3000), timeout=1500)
+    consts = session_consts(OpSet='{"numba","aux"}', LeafSet=leafset(2), MaxDepth="2", MaxLen="2", MaxNodes="4",
+                            Classes='{"ListOffset","IndexedOption","Record"}')
+    ctx.numba_phase("numba-programs-records", "Session", consts, invariants=["Closed"], constraint="SmallEnough",
+                    require_actions=["NumbaOp", "WrapRecord"], max_forms=(16 if q else 150), max_cases_per_form=(300 if q else 3000), timeout=1500)
+    return ctx.finish(rule="case = (layout, access program, run-time indexes); the program is compiled by Numba through /repo's lowering once per "
+                           "array form and run on every layout of that form; results boxed back and compared with AkNumba!NbExpect; "
+                           "reference counts of the layout before/after 20 calls on every 25th case",
+                      assumptions=[L2_TRUSTED, "numba 0.6x: numba.core.cgutils.pointer_add is adapted in the harness (integer base addresses), an "
+                                   "environment adaptation recorded in DESIGN.md; nothing in /repo changes",
+                                   "unions, virtual and partitioned arrays inside compiled code are not in this model yet"])
+
+
+RUNNERS["C20"] = run_C20
